@@ -133,45 +133,148 @@ def _allowed_bypass(b, edge, sp_dest_taint, cp_keys):
     return None
 
 
+def _closure_packed(b, node, want):
+    """`cond.then(|| Packed { a, b })` / `cond.then_some(Packed { .. })`: the locals of `b` that the closure (or the
+    argument) packs into the field that is read (`want`), or None if the call is not such a packaging."""
+    cn = strip_generics(node.get("callee") or "")
+    if not re.search(r"bool::then(_some)?$|Option(::<[^>]*>)?::(map|and_then|filter|or|xor)$", cn):
+        return None
+    facts_ = getattr(b, "facts", None)
+    out = []
+    found = False
+    for a_ in node.get("args", []):
+        al_ = op_local(b.resolve_copy(a_))
+        d_ = b.def_rvalue(al_) if al_ is not None else None
+        if d_ and d_[0] == "rv" and d_[1]["k"] == "agg" and d_[1].get("akind") == "closure" and facts_ is not None:
+            cb = facts_.bodies.get(d_[1].get("name"))
+            if cb is None:
+                return None
+            capname = {}
+            for vd in cb.j.get("var_debug", []):
+                v = vd.get("value") or {}
+                if v.get("l") == 1 and v.get("p"):
+                    k = next((e["f"] for e in v["p"] if isinstance(e, dict) and "f" in e), None)
+                    if k is not None:
+                        capname[k] = vd["name"]
+            rets = [st for site, st in cb.assigns() if st["rv"]["k"] == "agg" and st["rv"].get("akind") in ("adt", "tuple") and
+                    (st["place"]["l"] == 0 or any(s2["rv"]["k"] == "use" and op_local(s2["rv"]["op"]) == st["place"]["l"] and s2["place"]["l"] == 0 for _, s2 in cb.assigns()))]
+            if not rets:
+                return None
+            for st in rets:
+                rv = st["rv"]
+                if want is not None and rv.get("akind") == "adt" and want[0] is not None and rv.get("variant") != want[0]:
+                    continue
+                ops = rv["ops"]
+                if want is not None and want[1] < len(ops):
+                    ops = [ops[want[1]]]
+                for o_ in ops:
+                    if o_.get("k") == "const":
+                        continue
+                    cur = op_place(o_)
+                    nm = None
+                    for _ in range(8):
+                        if cur is None:
+                            break
+                        if cur["l"] == 1 and cur["p"]:
+                            k = next((e["f"] for e in cur["p"] if isinstance(e, dict) and "f" in e), None)
+                            nm = capname.get(k)
+                            break
+                        sd = cb.single_def(cur["l"])
+                        if not sd or sd[1] != "assign" or sd[2]["rv"]["k"] not in ("use", "cast"):
+                            break
+                        cur = op_place(sd[2]["rv"]["op"])
+                    pl_ = b.locals_named(nm) if nm else []
+                    if not pl_:
+                        return None
+                    out.append(pl_[0])
+                found = True
+        elif al_ is not None and cn.endswith("then_some") and a_ is node["args"][-1]:
+            out.append(al_)
+            found = True
+    return out if found else None
+
+
+def _want_of(pl):
+    """(variant name or None, field index) selected by the projections of a place, or None if it has no field projection"""
+    var = None
+    fld = None
+    for e in pl["p"]:
+        if isinstance(e, dict) and "d" in e:
+            var = e.get("d")
+            fld = None
+        elif isinstance(e, dict) and "f" in e:
+            if fld is None:
+                fld = e["f"]
+            else:
+                return "deep"
+    if fld is None:
+        return None
+    return (var, fld)
+
+
 def pack_leaves(b, operand, depth=12):
-    """Named locals that a value is *packaged* from: follows only copies, moves, tuple / Option
-    packing and unpacking (no arithmetic, no calls).  Used to say 'the offset persisted is the
-    offset committed' without value reasoning."""
+    """Named locals that a value is *packaged* from: follows only copies, moves, references, tuple / enum / Option
+    packing and unpacking (no arithmetic, no calls).  A read of one field of a packed value follows only the operand
+    that was packed into that field (of that variant); nested reads are followed level by level.  Used to say 'the
+    offset persisted is the offset committed' without value reasoning."""
     out = set()
     seen = set()
     work = []
     p = op_place(operand)
     if p is None:
         return out
-    work.append(p["l"])
+    w0 = _want_of(p)
+    work.append((p["l"], (w0,) if w0 not in (None, "deep") else ()))
     while work:
-        l = work.pop()
-        if l in seen:
+        l, want = work.pop()
+        if (l, want) in seen:
             continue
-        seen.add(l)
+        seen.add((l, want))
         defs = b.defs.get(l, [])
         pure = True
         nxt = []
         for site, kind, node in defs:
             if kind == "call":
-                pure = False
+                w = want
+                if w and w[0][0] in ("Some", None) and w[0][1] == 0:
+                    w = w[1:]       # the payload of the Option the call yields
+                via = _closure_packed(b, node, w[0] if w else None)
+                if via is None:
+                    pure = False
+                else:
+                    nxt.extend((x, w[1:] if w else ()) for x in via)
+                continue
+            if kind == "part":
                 continue
             rv = node["rv"]
-            if rv["k"] in ("use", "cast"):
-                q = op_place(rv["op"])
+            if rv["k"] in ("use", "cast", "ref", "rawptr"):
+                q = op_place(rv["op"]) if rv["k"] in ("use", "cast") else rv["place"]
                 if q is not None:
                     # one step of look-ahead: `x = (checked-arithmetic tuple).0` is a computation of x
                     sd = b.single_def(q["l"])
-                    if b.local_name(q["l"]) is None and sd is not None and ((sd[1] == "assign" and sd[2]["rv"]["k"] in ("bin", "un")) or sd[1] == "call"):
+                    if b.local_name(q["l"]) is None and sd is not None and ((sd[1] == "assign" and sd[2]["rv"]["k"] in ("bin", "un")) or (sd[1] == "call" and _closure_packed(b, sd[2], None) is None)):
                         pure = False
                     else:
-                        nxt.append(q["l"])
+                        w = _want_of(q)
+                        if w == "deep":
+                            pure = False
+                        else:
+                            nxt.append((q["l"], ((w,) + want) if w is not None else want))
                 # constants (None / 0 initialisers) are neutral
             elif rv["k"] == "agg" and rv.get("akind") in ("tuple", "adt"):
-                for o in rv["ops"]:
+                ops = rv["ops"]
+                rest = want
+                if want:
+                    wv, wf = want[0]
+                    if rv.get("akind") == "adt" and wv is not None and rv.get("variant") != wv:
+                        continue        # another variant than the one that is read
+                    if wf < len(ops) and (rv.get("akind") == "tuple" or wv is None or rv.get("variant") == wv):
+                        ops = [ops[wf]]
+                        rest = want[1:]
+                for o in ops:
                     q = op_place(o)
                     if q is not None:
-                        nxt.append(q["l"])
+                        nxt.append((q["l"], rest))
             else:
                 pure = False
         if b.local_name(l) and (not pure or not nxt):
